@@ -51,6 +51,7 @@ package status
 //vc:  set statusFile = store(statusFile, device, v)
 
 //vc:func SetApprove
+//vc:  requires[C12] @statusOnlyUnderLock lockHeld
 //vc:  requires[C13] policy != ""
 //vc:  requires[C13] InvApprove(statusFile[device], hasOK[device], tOK[device], pOK[device])
 //vc:  requires[C13] InvCompare(statusFile[device], hasOK[device], tOK[device], hasCmp[device], tCmp[device], pCmp[device], chg[device])
@@ -67,6 +68,7 @@ package status
 //vc:  ensures[C09] @resultTruthful statusFile[device].Approve.Result == ite(failed, "FAILED", "OK")
 
 //vc:func SetCompare
+//vc:  requires[C12] @statusOnlyUnderLock lockHeld
 //vc:  requires[C13] policy != ""
 //vc:  requires[C13] InvApprove(statusFile[device], hasOK[device], tOK[device], pOK[device])
 //vc:  requires[C13] InvCompare(statusFile[device], hasOK[device], tOK[device], hasCmp[device], tCmp[device], pCmp[device], chg[device])
